@@ -1045,6 +1045,23 @@ func (p *Program) phiNilImplied(ff *funcFacts, top map[*ssa.BasicBlock]bool, f F
 		for _, g := range p.edgeFacts(pr, blk) {
 			cand[g.key] = g
 		}
+		// the edge is infeasible for this outcome if the opposite is already known of its value on
+		// it (`if err != nil { goto end }` of an inlined helper: that edge carries err != nil, so it
+		// is not the way a nil phi was produced)
+		if _, isConst := stripConv(e).(*ssa.Const); !isConst {
+			contradiction := false
+			for _, g := range cand {
+				if y, nonNilWhenTrue, isTest := errNilTest(g.Cond); isTest && !g.Imported && p.sameValue(y, e) {
+					if (g.Pol == nonNilWhenTrue) == isNil {
+						contradiction = true
+						break
+					}
+				}
+			}
+			if contradiction {
+				continue
+			}
+		}
 		if first {
 			common = cand
 			first = false
